@@ -1066,6 +1066,11 @@ func c01Judge(cfg c01Cfg, k *c01Call, p *c01Prepared, o c01Outcome) {
 			return
 		}
 		wc, wm := tars.GetErrorCode(p.plan.err), p.plan.err.Error()
+		if te, ok := p.plan.err.(*tars.Error); ok && te.Code == 0 {
+			// code 0 is the protocol's success marker: the reply says "success" with an empty buffer and the proxy fails to decode the results
+			fail("error-code-zero", "reported-as-decode-error", "%s: the implementation failed with a tars.Error of code 0 (%q); the caller got code %d %q", k.Fn, wm, code, o.err.Error())
+			return
+		}
 		if wm == "" {
 			if code != wc {
 				fail("error-code", "empty-message", "%s: the implementation failed with code %d and an empty message; the caller got code %d %q", k.Fn, wc, code, o.err.Error())
@@ -1096,6 +1101,10 @@ func c01Judge(cfg c01Cfg, k *c01Call, p *c01Prepared, o c01Outcome) {
 		ms = append(ms, c01Map(m))
 	}
 	k.Res = fmt.Sprintf("(COk %s %s [%s])", ret, c01Vals(outs), strings.Join(ms, "; "))
+	if te, ok := p.plan.err.(*tars.Error); ok && te.Code == 0 {
+		fail("error-code-zero", "reported-as-success", "%s: the implementation failed with a tars.Error of code 0 (%q) but the caller got success", k.Fn, te.Message)
+		return
+	}
 	if p.plan.err != nil {
 		fail("error-lost", cfg.String(), "%s: the implementation failed with code %d %q but the caller got success", k.Fn, tars.GetErrorCode(p.plan.err), p.plan.err.Error())
 		return
